@@ -13,13 +13,13 @@ if "--tier" in sys.argv: tier = sys.argv[sys.argv.index("--tier") + 1]; args.rem
 # --worktree: apply in a scratch worktree of /repo HEAD instead of /repo itself (while other work uses /repo)
 TARGET = "/repo"
 if "--worktree" in sys.argv:
-    TARGET = "/tmp/seedwt"
+    TARGET = "/tmp/seedwt" + os.environ.get("SEED_SFX", "")
     subprocess.run(["git", "-C", "/repo", "worktree", "remove", "--force", TARGET], capture_output=True)
     subprocess.run(["git", "-C", "/repo", "worktree", "add", "--detach", "-q", TARGET, "HEAD"], check=True)
 seeds = args or sorted(os.path.basename(d) for d in glob.glob("seeded/*") if os.path.isdir(d))
 st = subprocess.run(["git", "-C", TARGET, "status", "--porcelain", "--untracked-files=no"], capture_output=True, text=True).stdout.strip()
 if st: sys.exit("/repo has uncommitted changes; refusing to run")
-resfile = "seeded/RESULTS.json"
+resfile = "seeded/RESULTS%s.json" % os.environ.get("SEED_SFX", "")  # SEED_SFX: parallel instances, merged afterwards
 results = json.load(open(resfile)) if os.path.exists(resfile) else {}
 for sd in seeds:
     meta = json.load(open("seeded/%s/meta.json" % sd))
@@ -36,7 +36,7 @@ for sd in seeds:
             # cross-check properties are only consulted while the change is still uncaught
             if "--first-catch" in sys.argv and any(isinstance(v, dict) and v["exit"] == 1 and v["violations"] for v in row.values()): break
             t = time.time()
-            env = dict(os.environ, MC_BUILD="build-seed", MC_REPO=TARGET)
+            env = dict(os.environ, MC_BUILD="build-seed" + os.environ.get("SEED_SFX", ""), MC_REPO=TARGET)
             r = subprocess.run(["./check", p, "--tier", tier], capture_output=True, text=True, env=env)
             viol = [l for l in r.stdout.splitlines() if l.startswith("VIOLATION")]
             row[p] = {"exit": r.returncode, "violations": len(viol), "first": (viol[0] if viol else ""), "wall_s": round(time.time() - t, 1)}
